@@ -93,6 +93,12 @@ Proof.
   clearbody X' T'. rewrite EX, ET. clear - C1 C2. split; nsatz.
 Qed.
 
+Lemma fpow_in z e : inF z -> 0 < e -> inF (fpow z e).
+Proof. intros Hz He. destruct e; try lia. apply fpow_pos_spec, Hz. Qed.
+
+Lemma e22523_pos : 0 < (fp - 5) / 8.
+Proof. vm_compute. reflexivity. Qed.
+
 Lemma sqrt_fixup x i V U : eqm (i * i + 1) 0 -> eqm 0 (x * x * V + U) -> eqm (x * i * (x * i) * V) U.
 Proof. intros H1 H2. nsatz. Qed.
 
@@ -112,7 +118,7 @@ Proof.
   name_sq yy y. name_sub u yy 1. name_mul yd yy cd. name_add v yd 1.
   set (v3 := fmul (fsq v) v). assert (Rv3 : inF v3) by (unfold v3; inF_tac).
   set (x0 := fmul (fmul (fsq v3) v) u). assert (Rx0 : inF x0) by (unfold x0; inF_tac).
-  assert (Rpw : inF (fpow x0 ((fp - 5) / 8))) by (apply fpow_pos_spec; exact Rx0).
+  assert (Rpw : inF (fpow x0 ((fp - 5) / 8))) by (apply fpow_in; [exact Rx0 | exact e22523_pos]).
   set (x1 := fmul (fmul (fpow x0 ((fp - 5) / 8)) v3) u). assert (Rx1 : inF x1) by (unfold x1; inF_tac).
   name_sq xs x1. name_mul vxx xs v.
   assert (Hfin : forall x, inF x -> eqm (x * x * (y * y * cd + 1)) (y * y - 1) ->
